@@ -135,6 +135,10 @@ type Case struct {
 	Decoy     bool     `json:"decoy,omitempty"`     // CFG_CONFIG & co. name a file with contradicting values (must be ignored)
 	Shuffle   int64    `json:"shuffle"`             // order of the flags in argv
 	Tail      []string `json:"tail,omitempty"`      // tokens after the flags
+
+	// History of the struct value handed to NewFlagSet (the model never looks at it):
+	Prefill bool  `json:"prefill,omitempty"` // every leaf holds garbage of its type before the first NewFlagSet
+	Prior   *Case `json:"prior,omitempty"`   // reload: this round (same struct type, other sources) ran first on the same struct value
 }
 
 var fileNames = []string{"cfg.json", "my config.json", "a=b.json", "ünï-配置.json", "sub/dir/c.json"}
@@ -582,48 +586,123 @@ func maskName(m int) string {
 	return strings.Join(p, "+")
 }
 
-// runCase sets the sources for real, calls NewFlagSet and Parse of glb and compares every
-// leaf with the value of its highest-priority source. A key starting with BROKEN: reports a
-// defect of the harness itself (illegal rendering), never one of glb.
-func runCase(cs *Case, h *harness) (key, expected, observed string) {
-	var leaves []leafRef
-	collectLeaves(cs.Root, nil, nil, &leaves)
-
-	// ---- harness self-check: every rendering is legal for its source
+// selfCheck is the harness' own guard: every rendering of a round is legal for its source.
+func selfCheck(leaves []leafRef) (key, observed string) {
 	for _, l := range leaves {
 		if l.t < 0 {
-			return brokenPrefix + "type", "", l.f.Type
+			return brokenPrefix + "type", l.f.Type
 		}
 		for s := 0; s < 4; s++ {
 			v := l.f.Src[s]
 			if (l.f.Mask&(1<<s) != 0) != (v != nil) {
-				return brokenPrefix + "mask-src", "", strings.Join(l.path, ".")
+				return brokenPrefix + "mask-src", strings.Join(l.path, ".")
 			}
 			if v == nil {
 				continue
 			}
 			if s == 1 {
 				if !jsonCapable(l.t, v) || !json.Valid([]byte(renderJSON(l.t, v))) {
-					return brokenPrefix + "json-rendering", "", strings.Join(l.path, ".") + " " + renderJSON(l.t, v)
+					return brokenPrefix + "json-rendering", strings.Join(l.path, ".") + " " + renderJSON(l.t, v)
 				}
 				continue
 			}
 			txt := renderText(l.t, v)
 			if !textCapable(l.t, v, s, l.f.Pipe) || !legalText(l.t, txt, goValue(l.t, v)) {
-				return brokenPrefix + "text-rendering", "", fmt.Sprintf("%s %s %q", strings.Join(l.path, "."), srcNames[s], txt)
+				return brokenPrefix + "text-rendering", fmt.Sprintf("%s %s %q", strings.Join(l.path, "."), srcNames[s], txt)
 			}
 		}
 		if l.f.Mask&SrcCli != 0 {
 			bare := l.f.CliSyn == 4
 			if bare && !(l.t == TBool && !l.f.Src[3].Empty && l.f.Src[3].B) {
-				return brokenPrefix + "bare-flag", "", strings.Join(l.path, ".")
+				return brokenPrefix + "bare-flag", strings.Join(l.path, ".")
 			}
 			if l.t == TBool && (l.f.CliSyn == 1 || l.f.CliSyn == 3) {
-				return brokenPrefix + "bool-with-separate-value", "", strings.Join(l.path, ".")
+				return brokenPrefix + "bool-with-separate-value", strings.Join(l.path, ".")
 			}
 		}
 	}
+	return "", ""
+}
 
+// garbage is a value of type t that differs from want, non-zero whenever the type allows it:
+// what a careless caller (or an earlier life of the program) left in the field.
+func garbage(t int, want any) any {
+	var cands []any
+	switch t {
+	case TBool:
+		cands = []any{true, false}
+	case TInt:
+		cands = []any{int(-77001), int(77002)}
+	case TInt64:
+		cands = []any{int64(-77003), int64(77004)}
+	case TUint:
+		cands = []any{uint(77005), uint(77006)}
+	case TUint64:
+		cands = []any{uint64(77007), uint64(77008)}
+	case TString:
+		cands = []any{"stale-garbage", "stale-garbage-2"}
+	case TFloat:
+		cands = []any{77.125, -77.25}
+	case TDur:
+		cands = []any{77 * time.Hour, -77 * time.Minute}
+	case TBytes:
+		cands = []any{[]byte("stale"), []byte{0x77, 0}}
+	}
+	for _, c := range cands {
+		if !equalVal(t, want, c) && !equalVal(t, c, want) {
+			return c
+		}
+	}
+	return cands[0]
+}
+
+// runCase builds the struct value, gives it its history (garbage before the first NewFlagSet,
+// an earlier NewFlagSet+Parse round with other sources) and runs the round under test. Every
+// round is judged by its own sources only. A key starting with BROKEN: reports a defect of the
+// harness itself (illegal rendering), never one of glb.
+func runCase(cs *Case, h *harness) (key, expected, observed string) {
+	var leaves []leafRef
+	collectLeaves(cs.Root, nil, nil, &leaves)
+	if k, o := selfCheck(leaves); k != "" {
+		return k, "", o
+	}
+	typ := buildType(cs.Root)
+	ptr := reflect.New(typ)
+	first, firstLeaves := cs, leaves
+	var priorLeaves []leafRef
+	if cs.Prior != nil {
+		collectLeaves(cs.Prior.Root, nil, nil, &priorLeaves)
+		if k, o := selfCheck(priorLeaves); k != "" {
+			return k, "", "prior round: " + o
+		}
+		if buildType(cs.Prior.Root) != typ || cs.Prior.Prior != nil {
+			return brokenPrefix + "prior-type", "", "the earlier round does not use the same struct type"
+		}
+		first, firstLeaves = cs.Prior, priorLeaves
+	}
+	history := ""
+	if cs.Prefill {
+		root := ptr.Elem()
+		for _, l := range firstLeaves {
+			want, _ := expectedOf(l.t, l.f)
+			root.FieldByIndex(l.index).Set(reflect.ValueOf(garbage(l.t, want)))
+		}
+		history = "prefilled"
+		h.stats["history_prefilled_cases"]++
+	}
+	if cs.Prior != nil {
+		if k, e, o := runRound(first, h, ptr, firstLeaves, history); k != "" {
+			return k + "/round=1of2", e, o
+		}
+		history = "reload"
+		h.stats["history_reload_cases"]++
+	}
+	return runRound(cs, h, ptr, leaves, history)
+}
+
+// runRound sets the sources of one round for real, calls NewFlagSet and Parse of glb on the
+// given struct value and compares every leaf with the value of its highest-priority source.
+func runRound(cs *Case, h *harness, ptr reflect.Value, leaves []leafRef, history string) (key, expected, observed string) {
 	// ---- sources
 	var envSet []string
 	setenv := func(k, v string) {
@@ -748,8 +827,17 @@ func runCase(cs *Case, h *harness) (key, expected, observed string) {
 	argv = append(argv, cs.Tail...)
 
 	// ---- the real thing
-	typ := buildType(cs.Root)
-	ptr := reflect.New(typ)
+	root := ptr.Elem()
+	var before []any // what the fields held when the struct was handed over (diagnosis only)
+	if history != "" {
+		before = make([]any, len(leaves))
+		for i, l := range leaves {
+			before[i] = root.FieldByIndex(l.index).Interface()
+			if b, ok := before[i].([]byte); ok {
+				before[i] = append([]byte(nil), b...)
+			}
+		}
+	}
 	var fs *config.FlagSet
 	var err error
 	if p := catch(func() { fs, err = config.NewFlagSet(ptr.Interface()) }); p != "" {
@@ -767,8 +855,7 @@ func runCase(cs *Case, h *harness) (key, expected, observed string) {
 	h.stats["parses"]++
 
 	// ---- compare
-	root := ptr.Elem()
-	for _, l := range leaves {
+	for i, l := range leaves {
 		want, winner := expectedOf(l.t, l.f)
 		got := root.FieldByIndex(l.index).Interface()
 		h.stats["fields_checked"]++
@@ -782,6 +869,13 @@ func runCase(cs *Case, h *harness) (key, expected, observed string) {
 		}
 		h.stats["winner_"+strings.TrimSuffix(wn, "(empty)")]++
 		h.cells[l.f.Type+"/"+maskName(l.f.Mask)] = struct{}{}
+		stale := history != "" && !equalVal(l.t, want, before[i])
+		if stale {
+			h.stats["history_fields_prestate_differs"]++
+			if winner < 0 || l.f.Src[winner].Empty {
+				h.stats["history_fields_prestate_differs_want_zero_by_omission"]++
+			}
+		}
 		if equalVal(l.t, want, got) {
 			continue
 		}
@@ -790,8 +884,11 @@ func runCase(cs *Case, h *harness) (key, expected, observed string) {
 		switch {
 		case equalVal(l.t, zeroOf(l.t), got):
 			is = "zero"
-		case equalVal(l.t, goValue(l.t, poison(l.t, want)), got):
+		case (cs.Decoy || cs.Carrier == CarBoth) && equalVal(l.t, goValue(l.t, poison(l.t, want)), got):
 			is = "contradicting-document"
+		}
+		if stale && is != "contradicting-document" && equalVal(l.t, before[i], got) {
+			is = "stale" // the value the field held before this round's NewFlagSet
 		}
 		for s := 0; s < 4; s++ {
 			if s != winner && l.f.Mask&(1<<s) != 0 && equalVal(l.t, goValue(l.t, l.f.Src[s]), got) {
@@ -800,9 +897,15 @@ func runCase(cs *Case, h *harness) (key, expected, observed string) {
 			}
 		}
 		key = fmt.Sprintf("field:%s/src=%s/win=%s/got=%s", l.f.Type, maskName(l.f.Mask), wn, is)
+		if history != "" {
+			key += "/history=" + history
+		}
 		expected = fmt.Sprintf("%s = %s (from %s); sources: %s; tag %s; env %s; argv %q; carrier %s; json %s",
 			strings.Join(l.path, "."), showVal(l.t, want), wn, describeSources(l), l.f.tag(), l.f.Env, argv, cs.Carrier, strings.TrimSpace(doc))
 		observed = showVal(l.t, got)
+		if history != "" {
+			expected += "; struct history: " + history + ", the field held " + showVal(l.t, before[i]) + " when NewFlagSet was called"
+		}
 		return key, expected, observed
 	}
 	return "", "", ""
@@ -894,6 +997,13 @@ func shape(cs *Case) (sig string, nontrivial bool) {
 	collectLeaves(cs.Root, nil, nil, &leaves)
 	var sb strings.Builder
 	fmt.Fprintf(&sb, "%s/%d/%v;", cs.Carrier, cs.PathKind, cs.Decoy)
+	if cs.Prefill {
+		sb.WriteString("prefilled;")
+	}
+	if cs.Prior != nil {
+		ps, _ := shape(cs.Prior)
+		sb.WriteString("after{" + ps + "};")
+	}
 	for _, l := range leaves {
 		f := l.f
 		fmt.Fprintf(&sb, "%s:%d:%d:%v:", f.Type, f.Mask, len(l.path)-1, f.Pipe)
